@@ -84,6 +84,15 @@ def cells(tier: str) -> dict:
                     t.prio = P("p" + t.id[1:])
             return s
         add(f"R6[{kind}]", mk, 6)
+    def noon(kind):
+        s = S6(kind, start=datetime(2025, 6, 2, 13, 0), limit="4h" if kind[0] == "d" else "9h")
+        s.effort_unit = H
+        for t in s.tasks:
+            if t.effort is not None:
+                t.prio = P("p" + t.id[1:])
+        return s
+    add("R6[dres,start13:00]", lambda: noon("dres"), 9)
+    add("R6[wres,start13:00]", lambda: noon("wres"), 9)
     for kind in ("default", "lunch", "leave", "vacation"):
         add(f"R8[{kind}]", lambda kind=kind: R8(kind), 4, {"s0": (0, 120)})
     return out
